@@ -28,14 +28,18 @@ impl RngCore for TapeRng {
         self.prng.next_u64()
     }
     fn fill_bytes(&mut self, dest: &mut [u8]) {
-        if dest.len() == 64 {
-            let mut e = [0u8; 64];
-            match self.tape.pop_front() {
-                Some(t) => e = t,
-                None => self.prng.fill_bytes(&mut e),
+        if !dest.is_empty() && dest.len() % 64 == 0 {
+            // one wide scalar per 64 bytes; a request for several at once (a batched draw) is served exactly as the same
+            // number of single requests would be
+            for chunk in dest.chunks_mut(64) {
+                let mut e = [0u8; 64];
+                match self.tape.pop_front() {
+                    Some(t) => e = t,
+                    None => self.prng.fill_bytes(&mut e),
+                }
+                chunk.copy_from_slice(&e);
+                self.served.push(Scalar::from_bytes_wide(&e).to_bytes());
             }
-            dest.copy_from_slice(&e);
-            self.served.push(Scalar::from_bytes_wide(&e).to_bytes());
         } else {
             self.prng.fill_bytes(dest)
         }
